@@ -253,12 +253,6 @@ def run_check(cd, tier, seed, write=True):
             merged.append((out, kind))
     all_files = merged
     files = [f for f, _ in all_files]
-    cache = {}
-
-    def events_of(f):
-        if f not in cache:
-            cache[f] = core.read_trace(f)
-        return cache[f]
 
     validated = 0
     if cd.trace_spec:
@@ -266,7 +260,7 @@ def run_check(cd, tier, seed, write=True):
         for x in fnd:
             if x['kind'] == 'error':
                 raise Infra('trace validation failed: ' + x['text'])
-            ex = core.exec_at_line(events_of(x['file']), x['line'] or 1)
+            ex = core.exec_at_line_file(x['file'], x['line'] or 1)
             res.drift.append('%s at line %s of an execution of prog %s: %s' % (x['kind'], x['line'], ex[1][0]['o'] if ex else '?', x['text']))
         cov['trace_spec_states'] = st['states']
         log('[validate] %s: %d findings (drift)' % (cd.trace_spec[0], len(fnd)))
@@ -278,7 +272,7 @@ def run_check(cd, tier, seed, write=True):
             if x['kind'] == 'error':
                 raise Infra('monitor failed: ' + x['text'])
             if x['kind'] == 'note':
-                ex = core.exec_at_line(events_of(x['file']), x['line'])
+                ex = core.exec_at_line_file(x['file'], x['line'])
                 res.monnotes.append((x['text'], ex[1][0] if ex else None))
                 continue
             if x['kind'] == 'rejected':
@@ -290,21 +284,9 @@ def run_check(cd, tier, seed, write=True):
         log('[validate] %s: %d candidate violations' % (mod, len([y for y in fnd if y['kind'] == 'monviol'])))
 
     phase('monitor validation')
-    # distinct / non-trivial counting
-    sigs = set()
-    nontrivial = set()
-    total = 0
-    sample = None
-    for f in files:
-        for start, xe in core.executions(events_of(f)):
-            total += 1
-            res.resets.append(xe[0])
-            s = core.exec_signature(xe)
-            sigs.add(s)
-            if core.has_inner_switch(xe):
-                nontrivial.add(s)
-                if sample is None and len(xe) < 80:
-                    sample = xe
+    # distinct / non-trivial counting (streamed, in parallel: the thorough tier records millions of events)
+    total, sigs, nontrivial, resets, sample = core.scan_stats(files)
+    res.resets += resets
     validated = total
     cov['traces_validated_against_impl'] = validated
     cov['evaluations'] = total
@@ -327,8 +309,7 @@ def run_check(cd, tier, seed, write=True):
         per_text[x['text']] = per_text.get(x['text'], 0) + 1
         if per_text[x['text']] > 3:
             continue
-        evs = events_of(x['file'])
-        ex = core.exec_at_line(evs, x['line'])
+        ex = core.exec_at_line_file(x['file'], x['line'])
         if ex is None:
             continue
         start, xe = ex
